@@ -215,24 +215,34 @@ def r4(ctx):
             v = lp.target.id
             leaves = [x for x in ast.walk(lp) if isinstance(x, (ast.Return, ast.Break, ast.Raise))]
             ctx.check(not leaves, R, f"{lab}:unknown-ids-skipped", m, (leaves[0] if leaves else lp), "an unknown id is skipped; the remaining records of the frame are still processed", f"{type(leaves[0]).__name__.lower()} at line {leaves[0].lineno} ends the loop" if leaves else "")
-            gets = [x for x in ast.walk(lp) if isinstance(x, ast.Call) and dotted(x.func) == f"{cont}.get"]
-            ok = len(gets) == 1 and len(gets[0].args) == 1 and norm_text(gets[0].args[0]) == f"{v}.{idf}"
-            ctx.check(ok, R, f"{lab}:lookup-by-own-id", m, (gets[0] if gets else lp), f"entity looked up with {cont}.get({v}.{idf})", norm_text(gets[0]) if gets else "no .get lookup")
-            ups = [x for x in ast.walk(lp) if isinstance(x, ast.Call) and (dotted(x.func) or "").endswith("." + upd)]
-            inst = None
-            for st in ast.walk(lp):
-                if isinstance(st, ast.Assign) and gets and st.value is gets[0] and isinstance(st.targets[0], ast.Name):
-                    inst = st.targets[0].id
-            ok = len(ups) == 1 and inst is not None and dotted(ups[0].func) == f"{inst}.{upd}" and len(ups[0].args) == 1 and dotted(ups[0].args[0]) == v
-            ctx.check(ok, R, f"{lab}:update-that-entity", m, (ups[0] if ups else lp), f"await <looked-up entity>.{upd}({v})", norm_text(ups[0]) if ups else "no update call")
-            if ups:
-                fn_nodes = [n for n, c in f.calls(upd)]
-                ctx.check(all(n.awaits for n in fn_nodes), R, f"{lab}:awaited", m, ups[0], "the update coroutine is awaited", "not awaited")
-                tests = f.tests(lambda e: isinstance(e, ast.Name) and e.id == inst)
-                ok = bool(tests) and all(f.cfg.dominates(f.branch(t, "true").id, n.id) for t in tests for n in fn_nodes)
-                ctx.check(ok, R, f"{lab}:only-known-entities", m, ups[0], "update only when the lookup found an entity", "unguarded")
-                extra = _extra_guards(f, fn_nodes, {inst})
-                ctx.check(not extra, R, f"{lab}:every-known-entity", m, ups[0], "every record of a known entity is applied (no further condition)", "update additionally guarded by: " + ", ".join(extra))
+            ups = [(n, c) for n, c in f.calls(upd)]
+            if len(ups) != 1:
+                ctx.violation(R, f"{lab}:update-that-entity", m, lp, f"one call <looked-up entity>.{upd}({v}) per record", f"{len(ups)} update calls")
+                continue
+            un, uc = ups[0]
+            # the receiver of the update, with locals expanded: CONT.get(v.id) or CONT[v.id]
+            recv = uc.func.value
+            inst = recv.id if isinstance(recv, ast.Name) else None
+            rtxt = f.expand_text(recv, un)
+            want = (f"{cont}.get({v}.{idf})", f"{cont}[{v}.{idf}]")
+            ctx.check(rtxt in want, R, f"{lab}:lookup-by-own-id", m, uc, f"the entity is looked up in {cont} with the record's own {v}.{idf}", rtxt)
+            ok = len(uc.args) == 1 and dotted(uc.args[0]) == v and not uc.keywords
+            ctx.check(ok, R, f"{lab}:update-that-entity", m, uc, f"await <looked-up entity>.{upd}({v})", norm_text(uc))
+            ctx.check(un.awaits, R, f"{lab}:awaited", m, uc, "the update coroutine is awaited", "not awaited")
+            # presence guard: truthiness / `is not None` of the looked-up local, or membership of the id in the container
+            present = []
+            if inst is not None:
+                present += [f.branch(t, lab_) for t, lab_ in f.presence(inst)]
+            guard_tests = set(id(t) for t, _ in (f.presence(inst) if inst else []))
+            for t in f.cfg.nodes:
+                e = t.ast
+                if t.kind == "test" and isinstance(e, ast.Compare) and len(e.ops) == 1 and isinstance(e.ops[0], (ast.In, ast.NotIn)) and norm_text(e.left) == f"{v}.{idf}" and norm_text(e.comparators[0]) == cont:
+                    present.append(f.branch(t, "true" if isinstance(e.ops[0], ast.In) else "false"))
+                    guard_tests.add(id(t))
+            ok = any(f.cfg.dominates(b_.id, un.id) for b_ in present)
+            ctx.check(ok, R, f"{lab}:only-known-entities", m, uc, "update only when the lookup found an entity", "unguarded")
+            extra = [x for x in _extra_guard_nodes(f, [un]) if id(x[0]) not in guard_tests]
+            ctx.check(not extra, R, f"{lab}:every-known-entity", m, uc, "every record of a known entity is applied (no further condition)", "update additionally guarded by: " + ", ".join(txt for _, txt in extra))
         # error info dispatch
         f = fn_of(ctx, modname, f"{clsname}._process_ac_error_info_message")
         p = f.params[1]
@@ -243,6 +253,19 @@ def r4(ctx):
         un = [n for n, c in f.calls("update_ac_error_info")]
         extra = _extra_guards(f, un, {"ac_instance"})
         ctx.check(not extra, R, f"{clsname}._process_ac_error_info_message:unconditional-for-known-ac", m, f.node, "every error-information frame for a known AC updates it (also an empty text, which clears the stored one)", "update additionally guarded by: " + ", ".join(extra))
+
+
+def _extra_guard_nodes(f, nodes):
+    """[(test node, text)] of every condition that dominates the given nodes"""
+    out = []
+    for t in f.cfg.nodes:
+        if t.kind != "test":
+            continue
+        for lbl in ("true", "false"):
+            b = f.branch(t, lbl)
+            if nodes and all(f.cfg.dominates(b.id, n.id) for n in nodes):
+                out.append((t, ("" if lbl == "true" else "not ") + norm_text(t.ast)))
+    return out
 
 
 def _extra_guards(f, nodes, allowed_names):
